@@ -1427,6 +1427,15 @@ package pokertable
 //@ func (*tableEngine).emitErrorEvent
 //@   inline
 
+// the closure itself: whatever state comes with the failure (the native backend hands over nil), the error reaches the
+// table error callback exactly once, with the table and that error. ("go te.emitErrorEvent" is modelled as an immediate call.)
+//@ func (*tableEngine).startGame$2
+//@   property C13
+//@   requires te != nil && te.table != nil && St(te) != nil
+//@   modifies St(te).GameState, log
+//@   ensures failure-reaches-the-table-error-callback: ncalls() == old(ncalls()) + 1 && callfn(old(ncalls())) == "callback:onTableErrorUpdated"
+//@             && callarg(old(ncalls()), 0) == ref(te.table) && callarg(old(ncalls()), 1) == err
+
 //@ func (*tableEngine).UpdateTablePlayers
 //@   partial discharged for seat counts 2..3; larger tables exceed the solver budget
 //@   retsplit
